@@ -51,10 +51,6 @@ theorem serialized_lru_splitter_probes :
 
 /-! ## what is assumed about `split_suffix` -/
 
-/-- the suffix parts re-join to the lower-cased host of the netloc -/
-def SplitLaw (n : Str) : Prop :=
-  ∀ d s, splitSuffixParsed sp n = some (d, s) → rejoin d s = lower (specHost n)
-
 /-- **C08's clause is enough**: if the two parts returned by `split_suffix` re-join to the
 lower-cased `.hostname` (`SplitRejoins`), then on a netloc of the grammar they re-join to the
 lower-cased host — a bracketed literal never reaches the trie (`is_special_host`) -/
